@@ -18,8 +18,8 @@ import (
 	"runtime"
 	"sort"
 	"strconv"
-	"sync"
 	"strings"
+	"sync"
 	"time"
 
 	"github.com/insomniacslk/dhcp/verifshim/vs"
